@@ -92,7 +92,8 @@ class C02(CodecBase):
             'bytes only (Python tokeniser, Length/data aware): 8,9,35 first in that order; BodyLength == bytes between BodyLength field and '
             'CheckSum field; three-digit CheckSum == byte sum mod 256; every token decimal-tag=value SOH; header then body then trailer tokens; '
             'ascending schema position within each section/element; each group = count then exactly count elements each starting with the '
-            'group\'s first field; token multiset == generated fields. Non-trivial: insertion order differs from position order and >=1 group.')
+            'group\'s first field; token multiset == generated fields. The same oracle on a second encoder output: the message decoded from those bytes, about a third '
+            'of its fields (in header, body, trailer and group elements) replaced by copies of themselves through add_field, encoded again. Non-trivial: insertion order differs from position order and >=1 group.')
 
     def __init__(self, tier):
         super().__init__(tier)
@@ -103,24 +104,32 @@ class C02(CodecBase):
     def run(self, case, ex):
         sch = self.schemas[case['schema']]
         spec = case['spec']
-        ans = ex.call('build %s enc %s' % (case['schema'], fixref.spec_tokens(spec)))
+        import zlib
+        rs = zlib.crc32(pbt.jdump(spec).encode()) & 0x7fffffff
+        ans = ex.call('build %s enc,reset:%d %s' % (case['schema'], rs, fixref.spec_tokens(spec)))
         f = fixref.spec_features(sch, spec)
-        enc = ans.get('enc')
-        if not isinstance(enc, str):
-            raise Violation('C02: encode failed for a valid message: %r\nspec=%s' % (enc, pbt.jdump(spec)))
-        wire = bytes.fromhex(enc).decode('latin-1')
-        shown = wire.replace('\x01', '|')
-        try:
-            parsed = fixref.check_wellformed(sch, wire)
-        except fixref.Malformed as e:
-            raise Violation('C02: encoder output is not well-formed FIX: %s\n wire: %s' % (e, shown))
-        if parsed['type'] != spec['type']:
-            raise Violation('C02: MsgType %r on the wire, %r generated' % (parsed['type'], spec['type']))
-        for key, traits in (('h', sch.header), ('b', sch.traits(spec['type'])), ('t', sch.trailer)):
-            got = fixref.flat_tokens(parsed[key])
-            want = fixref.ref_tokens(spec[key], traits)
-            if got != want:
-                raise Violation('C02: section %s tokens differ from the generated fields\n got : %r\n want: %r\n wire: %s' % (key, got, want, shown))
+
+        def verify(enc, what):
+            if not isinstance(enc, str):
+                raise Violation('C02: encode failed for %s: %r\nspec=%s' % (what, enc, pbt.jdump(spec)))
+            wire = bytes.fromhex(enc).decode('latin-1')
+            shown = wire.replace('\x01', '|')
+            try:
+                parsed = fixref.check_wellformed(sch, wire)
+            except fixref.Malformed as e:
+                raise Violation('C02: encoder output (%s) is not well-formed FIX: %s\n wire: %s' % (what, e, shown))
+            if parsed['type'] != spec['type']:
+                raise Violation('C02: MsgType %r on the wire, %r generated' % (parsed['type'], spec['type']))
+            for key, traits in (('h', sch.header), ('b', sch.traits(spec['type'])), ('t', sch.trailer)):
+                got = fixref.flat_tokens(parsed[key])
+                want = fixref.ref_tokens(spec[key], traits)
+                if got != want:
+                    raise Violation('C02: %s: section %s tokens differ from the generated fields\n got : %r\n want: %r\n wire: %s' % (what, key, got, want, shown))
+            return shown
+        shown = verify(ans.get('enc'), 'a valid message')
+        # the same content reached another way: the message decoded from those bytes, a third of its fields (group elements included) set again to the value they
+        # hold (add_field / operator<< on a present field replaces it), encoded again
+        verify(ans.get('reset'), 'the decoded message after %s of its fields were set again to the same value' % ans.get('reset_n'))
         return {
             'nontrivial': f['permuted'] and f['groups'] >= 1,
             'classes': ['schema:' + case['schema']] + (['permuted'] if f['permuted'] else []) + (['groups'] if f['groups'] else []),
@@ -152,6 +161,31 @@ class C11(CodecBase):
             self.examples = 100000
             self.workers = 16
 
+    def strategy(self):
+        # as for C01, plus: float fields built with a precision other than the default (Price(1.08345, 5)) - the precision is part of the field object, so a clone or a
+        # copied field has to render the same digits.  (Only here: precision is not carried on the wire, so C01's re-encode clause holds at the default precision only.)
+        def with_precisions(t):
+            import random
+            c, r = t
+            rnd = random.Random(r)
+            def walk(items):
+                out = []
+                for it in items:
+                    it = dict(it)
+                    if it['k'] == 'f' and rnd.random() < 0.4:
+                        p = rnd.choice([0, 1, 3, 4, 5, 7])
+                        it['p'] = p
+                        it['v'] = rnd.randint(-10 ** (p + 3), 10 ** (p + 3))
+                    if it.get('g'):
+                        it['g'] = [walk(el) for el in it['g']]
+                    out.append(it)
+                return out
+            spec = dict(c['spec'])
+            for key in ('h', 'b', 't'):
+                spec[key] = walk(spec[key])
+            return dict(c, spec=spec)
+        return st.tuples(super().strategy(), st.integers(0, 2 ** 32 - 1)).map(with_precisions)
+
     def run(self, case, ex):
         sch = self.schemas[case['schema']]
         spec = case['spec']
@@ -166,7 +200,13 @@ class C11(CodecBase):
 
         def wire(x):
             return bytes.fromhex(x).decode('latin-1').replace('\x01', '|') if isinstance(x, str) else repr(x)
-        for key, src in (('enc', ans), ('clone', ans), ('copy', ans), ('move', mv), ('dclone', ans), ('dcopy', ans), ('dmove', ans)):
+        def has_prec(items):
+            return any('p' in it or any(has_prec(el) for el in it.get('g', [])) for it in items)
+        nondefault = has_prec(spec['h']) or has_prec(spec['b']) or has_prec(spec['t'])
+        # a decoded field is built from text at the default precision (precision is not carried on the wire): the decoded-source transfers are compared only when
+        # every float of the message has the default precision
+        keys = (('enc', ans), ('clone', ans), ('copy', ans), ('move', mv)) + (() if nondefault else (('dclone', ans), ('dcopy', ans), ('dmove', ans)))
+        for key, src in keys:
             got = src.get(key)
             if not isinstance(got, str) or bytes.fromhex(got).decode('latin-1') != ref:
                 raise Violation('C11: %s of the message does not encode to the original content\n %-5s: %s\n ref  : %s' % (
@@ -182,7 +222,7 @@ class C11(CodecBase):
                 mv.get('move_n'), wantm, shown))
         return {
             'nontrivial': f['multi_elem'] or f['max_depth'] >= 2,
-            'classes': ['schema:' + case['schema'], 'depth%d' % f['max_depth']] + (['multi_elem'] if f['multi_elem'] else []),
+            'classes': ['schema:' + case['schema'], 'depth%d' % f['max_depth']] + (['multi_elem'] if f['multi_elem'] else []) + (['float_precision_not_default'] if nondefault else []),
             'key': case,
             'sample': {'schema': case['schema'], 'type': spec['type'], 'wire': shown},
         }
